@@ -257,13 +257,14 @@ func (eng *Engine) effects(fn *ssa.Function) map[string]bool {
 		eng.effCache[fn] = e
 		return e
 	}
-	if len(fn.Blocks) == 0 || !eng.inModule(fn) {
+	if len(fn.Blocks) == 0 || (!eng.inModule(fn) && fn.Synthetic == "") {
 		e := eng.defaultExternEffects(fn.Signature, fn)
 		eng.effCache[fn] = e
 		return e
 	}
 	if eng.effBusy[fn] {
-		return map[string]bool{} // recursion: fixpoint approximated by caller's accumulation
+		eng.effRecursed = true
+		return map[string]bool{} // recursion: the outermost computation accumulates the whole cycle
 	}
 	eng.effBusy[fn] = true
 	out := map[string]bool{}
@@ -276,7 +277,12 @@ func (eng *Engine) effects(fn *ssa.Function) map[string]bool {
 		_ = an
 	}
 	delete(eng.effBusy, fn)
-	eng.effCache[fn] = out
+	if len(eng.effBusy) == 0 {
+		eng.effRecursed = false
+		eng.effCache[fn] = out
+	} else if !eng.effRecursed {
+		eng.effCache[fn] = out
+	}
 	return out
 }
 
